@@ -130,7 +130,7 @@ def judge(ctx, graph, inst_name, entity, t, lane):
             t2 = small
         else:
             t2 = t
-        keys = findings.relational_triggers(t2, backend, flags, prob, root=entity)
+        keys = findings.relational_triggers(t2, backend, flags, prob, root=entity, detail=detail)
         ctx.fail({"filter": to_text(t2), "root": entity, "backend": backend, "instance": inst_name,
                   "term": t2, "instance_data": graph.inst if len(str(graph.inst)) < 6000 else None},
                  prob, expected="parents per OData semantics", observed=detail, keys=keys,
